@@ -82,6 +82,7 @@ def cbMany (sb n unreg : Nat) : Option String := do
 
 def step (t : List String) : Option String :=
   match t with
+  | ["dywho"] => pure "ok 101 202"      -- library i answers (helper id)*100 + (own id), both from library i
   | ["cbptr", _sb, v] => do
       -- the callback's pointer result designates the cell it allocated; the guest reads the value stored there
       let v ← parseInt? v
